@@ -34,6 +34,18 @@ type InternalCron struct {
 	Cron *Cron
 }
 
+// jobId makes the key for a job.  Ids are only unique within a
+// location, and all locations share this cron, so qualify the id
+// with the name of the context's location (if any).
+func jobId(ctx *core.Context, id string) string {
+	if ctx != nil {
+		if loc := ctx.Location(); loc != nil {
+			return loc.Name + "\x00" + id
+		}
+	}
+	return id
+}
+
 func (c *InternalCron) ScheduleEvent(ctx *core.Context, se *ScheduledEvent) error {
 	sched, _, err := ParseSchedule(se.Schedule)
 	if err != nil {
@@ -57,7 +69,7 @@ func (c *InternalCron) ScheduleEvent(ctx *core.Context, se *ScheduledEvent) erro
 		core.Log(core.DEBUG|CRON, ctx, "InternalCron.ScheduleEvent", "findrules", *fr)
 		return nil
 	}
-	return c.Cron.Add(ctx, se.Id, sched, fn)
+	return c.Cron.Add(ctx, jobId(ctx, se.Id), sched, fn)
 }
 
 func (c *InternalCron) Schedule(ctx *core.Context, sw *ScheduledWork) error {
@@ -98,11 +110,11 @@ func (c *InternalCron) Schedule(ctx *core.Context, sw *ScheduledWork) error {
 		return nil
 	}
 
-	return c.Cron.Add(ctx, sw.Id, sched, fn)
+	return c.Cron.Add(ctx, jobId(ctx, sw.Id), sched, fn)
 }
 
 func (c *InternalCron) Rem(ctx *core.Context, id string) (bool, error) {
-	return c.Cron.Rem(ctx, id)
+	return c.Cron.Rem(ctx, jobId(ctx, id))
 }
 
 func (c *InternalCron) Persistent() bool {
